@@ -155,6 +155,32 @@ async fn run(name: &str) -> Result<(), String> {
             if !alive.is_empty() { return Err(format!("processes {alive:?} survived the graceful quit")); }
             Ok(())
         }
+        // C08 (one history): a graceful quit requested by a handler that has just deleted the job still ends the main task
+        "graceful_quit_after_the_handler_deleted_the_job" => {
+            use watchexec::command::{Command, Program, Shell};
+            use watchexec_signals::Signal;
+            let n = Arc::new(AtomicUsize::new(0));
+            let n2 = n.clone();
+            let id = watchexec::Id::default();
+            let wx = Watchexec::new(move |mut action| {
+                let cmd = Arc::new(Command { program: Program::Shell { shell: Shell::new("sh"), command: "exec sleep 600".into(), args: Vec::new() }, options: Default::default() });
+                let job = action.get_or_create_job(id, move || cmd.clone());
+                if n2.fetch_add(1, Ordering::SeqCst) == 0 {
+                    job.start();
+                } else {
+                    job.delete();
+                    action.quit_gracefully(Signal::Terminate, Duration::from_millis(1000));
+                }
+                action
+            }).map_err(|e| e.to_string())?;
+            let main = wx.main();
+            wx.send_event(watchexec_events::Event::default(), watchexec_events::Priority::Urgent).await.map_err(|e| e.to_string())?;
+            tokio::time::sleep(Duration::from_millis(500)).await;
+            wx.send_event(watchexec_events::Event::default(), watchexec_events::Priority::Urgent).await.map_err(|e| e.to_string())?;
+            let done = tokio::time::timeout(Duration::from_secs(10), main).await;
+            let _ = std::fs::remove_dir_all(&dir);
+            if done.is_err() { Err("main task still running 10 s after a handler deleted its job and asked for a graceful quit (grace 1 s)".into()) } else { Ok(()) }
+        }
         _ => Err(format!("unknown scenario {name}")),
     }
 }
